@@ -273,6 +273,23 @@ macro_rules! point_machine {
                 let b = bytes_biased(t, rng, l);
                 scs.push(Scalar::decode_reduce(&b));
             }
+            // structured scalars: +/- m * 2^(32 j) with a boundary-biased 64-bit m (multiples of large powers of
+            // two, values just below / above them, and their negations: the operands on which scalar recoding,
+            // endomorphism splitting and window lookups take their rare paths)
+            for _ in 0..1 + t.usize(3) {
+                let m = word(t, rng);
+                let j = t.usize(8);
+                let mut b = vec![0u8; 40];
+                b[4 * j..4 * j + 8].copy_from_slice(&m.to_le_bytes());
+                let mut s = Scalar::decode_reduce(&b);
+                match t.usize(4) {
+                    0 => {}
+                    1 => s = -s,
+                    2 => s = s - Scalar::ONE,
+                    _ => s = -s + Scalar::ONE,
+                }
+                scs.push(s);
+            }
             for _ in 0..nops {
                 let p = pts[t.usize(pts.len())];
                 let q = pts[t.usize(pts.len())];
